@@ -15,13 +15,15 @@ def rle_encode(text: str) -> str:
 
 def rle_decode(text: str) -> str:
     """Decodes markers and handles escaped literal delimiters properly."""
-    # Step 1: Find and expand the RLE tokens (~cN~)
-    # Strictly matches one non-tilde character and its count inside ~ delimiters
-    rle_pattern = re.compile(r"~([^~])(\d+)~")
-    expanded = rle_pattern.sub(lambda m: m.group(1) * int(m.group(2)), text)
-
-    # Step 2: Collapse the doubled literal delimiters back to single ones (~~ -> ~)
-    return expanded.replace("~~", "~")
+    # A single left-to-right pass over the two kinds of token: a doubled literal
+    # delimiter (~~ -> ~) or a run marker (~cN~). Expanding the markers first and
+    # collapsing the delimiters afterwards misreads an escaped literal such as
+    # "~~a1~~" (the text "~a1~") as the run marker "~a1~".
+    rle_pattern = re.compile(r"~~|~([^~])(\d+)~")
+    return rle_pattern.sub(
+        lambda m: "~" if m.group(0) == "~~" else m.group(1) * int(m.group(2)),
+        text,
+    )
 
 
 def compact_value(data: Any) -> Any:
